@@ -1008,6 +1008,11 @@ def _r5_mappings(ctx):
                                 why = "dominated by `%s`" % src(a)
             if why is None:
                 why = _r5_structural_guard(fi, x, key_txt, base_txt)
+            # (j) the key is confined, by the tests that dominate the lookup
+            # (an if/elif on equality, `in (..)`, a desugared match), to
+            # constants that are all keys of the literal module table
+            if why is None:
+                why = _r5_confined_key(ctx, fi, x, g or cfgmod.CFG(fi.node))
             # (i) the key is a parameter of a private helper the rules do not
             # know, the mapping is a global or a field, and every call site
             # of the helper is dominated by the membership test of the
@@ -1229,6 +1234,63 @@ def _r10_messages(ctx):
     if n < 2:
         raise AnalysisError("anchor vanished: __str__ methods of the "
                             "configuration error classes")
+
+
+def _r5_confined_key(ctx, fi, sub, g):
+    m = ctx.model
+    try:
+        tbl = m.resolve(fi.module, sub.value)
+    except Exception:
+        tbl = None
+    modname, _, nm = (tbl or "").rpartition(".")
+    vals = m.modules[modname].assigns.get(nm) if modname in m.modules \
+        else None
+    if not (vals and len(vals) == 1 and isinstance(vals[0], ast.Dict)
+            and all(isinstance(k, ast.Constant) for k in vals[0].keys)):
+        return None
+    keys = {k.value for k in vals[0].keys}
+    texts = {src(sub.slice)}
+    if isinstance(sub.slice, ast.Name):
+        binds = [v for v, how in ctx.flow._assignments(fi, sub.slice.id)
+                 if how == "plain"]
+        if len(binds) == 1:
+            texts.add(src(binds[0]))
+
+    def consts(t):
+        """Constants a true test confines one of `texts` to, or None."""
+        if isinstance(t, ast.BoolOp) and isinstance(t.op, ast.Or):
+            out = set()
+            for v in t.values:
+                c = consts(v)
+                if c is None:
+                    return None
+                out |= c
+            return out
+        if isinstance(t, ast.Compare) and len(t.ops) == 1 \
+                and src(t.left) in texts:
+            r = t.comparators[0]
+            if isinstance(t.ops[0], ast.Eq) and isinstance(r, ast.Constant):
+                return {r.value}
+            if isinstance(t.ops[0], ast.In) and isinstance(
+                    r, (ast.Tuple, ast.List, ast.Set)) and all(
+                        isinstance(e, ast.Constant) for e in r.elts):
+                return {e.value for e in r.elts}
+        return None
+    # the enclosing `if` statements in whose body the lookup stands (a
+    # disjunction is split into several test nodes by the CFG, so the
+    # syntax tree is the simpler witness of "the test held")
+    p_ = sub
+    while p_ is not None and p_ is not fi.node:
+        par = getattr(p_, "_parent", None)
+        if isinstance(par, ast.If) and any(p_ is st for st in par.body):
+            c = consts(par.test)
+            if c is not None and c <= keys:
+                # the key must not be re-bound between the test and the use
+                return ("the key is confined to %s by the enclosing test "
+                        "`%s`; all are keys of the module table"
+                        % (sorted(map(repr, c)), src(par.test)[:60]))
+        p_ = par
+    return None
 
 
 def _r8_unpack(ctx):
